@@ -1,10 +1,17 @@
 (* C05 -- reading a ragged array equals reading the list of its rows.
-   Property theorems only; proofs live in Proof/RaggedProofs.v, the model in Model/Ragged.v.
-   [get_c s i] is RaggedArray.__getitem__ on the flat representation (data + lengths, starts by cumulative
-   sum); [get_s rows i] is the same index applied to a plain list of rows; [abs s] is the list of rows of s;
-   [wf s] says the lengths add up to the size of the flat data (what the constructor enforces). *)
+   Property theorems only; proofs live in Proof/RaggedProofs.v (+ Proof/PySliceLemmas.v), the model in
+   Model/Ragged.v.
+   [get_c s i]  RaggedArray.__getitem__ on the class's representation: flat data + row lengths, starts by
+                cumulative sum, the (row, col) -> flat offset arithmetic of _convert_from_2d /
+                _handle_negative_indices, the pair generation of _get_iis_from_slices / _get_iis_from_list /
+                _slice_to_list, and the constructor applied to the result;
+   [get_s rows i]  the same index applied to a plain list of rows (Python/NumPy indexing of every row);
+   [abs s]      the list of rows of s;
+   [wf s]       the lengths add up to the size of the flat data (what the constructor enforces);
+   results      Val rows (a RaggedArray) | Flat xs (a 1-D array) | Err (the read raises).
+   All theorems hold for any number of rows, any row lengths (zero included), any element type. *)
 From Coq Require Import List ZArith.
-From EV Require Import PySlice Ragged RaggedProofs.
+From EV Require Import PySlice Ragged RaggedProofs RaggedWhere.
 Import ListNotations.
 
 (* single row a[r] *)
@@ -12,12 +19,164 @@ Theorem c05_row : forall A (s : conc A) r, get_c s (Row r) = get_s (abs s) (Row 
 Proof. exact @get_row_refines. Qed.
 Print Assumptions c05_row.
 
-(* (row, column) element a[r, c], including error <-> error *)
+(* row slice a[s:e:k] *)
+Theorem c05_rows : forall A (s : conc A) sl, get_c s (Rows sl) = get_s (abs s) (Rows sl).
+Proof. exact @get_rows_refines. Qed.
+Print Assumptions c05_rows.
+
+(* row list a[[r0, r1, ..]] *)
+Theorem c05_rowlist : forall A (s : conc A) rs, get_c s (RowList rs) = get_s (abs s) (RowList rs).
+Proof. exact @get_rowlist_refines. Qed.
+Print Assumptions c05_rowlist.
+
+(* slice of one row a[r, s:e:k] *)
+Theorem c05_rowsl : forall A (s : conc A) r sl, get_c s (RowSl r sl) = get_s (abs s) (RowSl r sl).
+Proof. exact @get_rowsl_refines. Qed.
+Print Assumptions c05_rowsl.
+
+(* (row, column) element a[r, c], positive or negative indices, error <-> error *)
 Theorem c05_elem : forall A (s : conc A) r c, wf s -> get_c s (Elem r c) = get_s (abs s) (Elem r c).
 Proof. exact @get_elem_refines. Qed.
 Print Assumptions c05_elem.
 
+(* "An element access outside a row raises an error instead of returning data that belongs to a neighbouring
+   row": whenever the column is outside [-len(row), len(row)) the read raises -- for every array, even one
+   whose lengths do not add up; and a read that succeeds returns the entry of that very row. *)
+Theorem c05_elem_outside_row_raises : forall A (s : conc A) r c,
+  (forall l, get_item (lens s) r = Some l -> (Z.of_nat l <= c \/ c < - Z.of_nat l)%Z) ->
+  get_c s (Elem r c) = Err.
+Proof. exact @elem_oob_is_error. Qed.
+Print Assumptions c05_elem_outside_row_raises.
+
+Theorem c05_elem_value_from_own_row : forall A (s : conc A) r c x,
+  wf s -> get_c s (Elem r c) = Flat [x] ->
+  exists row, get_item (abs s) r = Some row /\ get_item row c = Some x.
+Proof. exact @elem_value. Qed.
+Print Assumptions c05_elem_value_from_own_row.
+
+(* paired fancy indices a[[r0,..],[c0,..]], a[[r0,..], c], a[r, [c0,..]] *)
+Theorem c05_pairs : forall A (s : conc A) rs cs, wf s -> get_c s (Pairs rs cs) = get_s (abs s) (Pairs rs cs).
+Proof. exact @get_pairs_refines. Qed.
+Print Assumptions c05_pairs.
+
+Theorem c05_pairs_scalar : forall A (s : conc A) rs c,
+  wf s -> get_c s (PairsScalar rs c) = get_s (abs s) (PairsScalar rs c).
+Proof. exact @get_pairs_scalar_refines. Qed.
+Print Assumptions c05_pairs_scalar.
+
+Theorem c05_elem_list : forall A (s : conc A) r cs,
+  wf s -> get_c s (ElemList r cs) = get_s (abs s) (ElemList r cs).
+Proof. exact @get_elem_list_refines. Qed.
+Print Assumptions c05_elem_list.
+
+(* two-dimensional slices with positive or negative bounds and steps: a[s:e:k, s':e':k'] ... *)
+Theorem c05_slice_slice : forall A (s : conc A) rsl csl,
+  wf s -> get_c s (Sl2SS rsl csl) = get_s (abs s) (Sl2SS rsl csl).
+Proof. exact @get_sl2ss_refines. Qed.
+Print Assumptions c05_slice_slice.
+
+(* ... a[[r0,..], s:e:k] ... *)
+Theorem c05_list_slice : forall A (s : conc A) rs csl,
+  wf s -> get_c s (Sl2LS rs csl) = get_s (abs s) (Sl2LS rs csl).
+Proof. exact @get_sl2ls_refines. Qed.
+Print Assumptions c05_list_slice.
+
+(* ... a[s:e:k, c] and a[s:e:k, [c0,..]] *)
+Theorem c05_slice_int : forall A (s : conc A) rsl c,
+  wf s -> get_c s (Sl2SI rsl c) = get_s (abs s) (Sl2SI rsl c).
+Proof. exact @get_sl2si_refines. Qed.
+Print Assumptions c05_slice_int.
+
+Theorem c05_slice_list : forall A (s : conc A) rsl cs,
+  wf s -> get_c s (Sl2SL rsl cs) = get_s (abs s) (Sl2SL rsl cs).
+Proof. exact @get_sl2sl_refines. Qed.
+Print Assumptions c05_slice_list.
+
+(* every selected index of a Python slice lies inside the sequence (what makes the per-row ranges safe) *)
+Theorem c05_slice_indices_inside : forall len start stop step i,
+  In i (slice_indices len start stop step) -> (0 <= i < Z.of_nat len)%Z.
+Proof. exact PySliceLemmas.slice_indices_in_range. Qed.
+Print Assumptions c05_slice_indices_inside.
+
+(* boolean ragged mask: ra.where(mask) lists the True positions row-major (_convert_from_1d inverts the
+   starts arithmetic; rows of the mask non-empty, as in every array the property quantifies over) ... *)
+Theorem c05_where : forall m : list (list bool),
+  (forall row, In row m -> row <> []) -> where_c m = Some (where_s m).
+Proof. exact where_c_spec. Qed.
+Print Assumptions c05_where.
+
+(* ... a[mask] equals reading those positions from the list of rows ... *)
+Theorem c05_mask : forall A (s : conc A) m,
+  wf s -> (forall row, In row m -> row <> []) -> get_c s (Mask m) = get_s (abs s) (Mask m).
+Proof. exact @get_mask_refines. Qed.
+Print Assumptions c05_mask.
+
+(* ... and, when the mask has the array's row structure, is the kept entries of every row, in order. *)
+Theorem c05_mask_same_structure : forall A (s : conc A) m,
+  wf s -> (forall row, In row m -> row <> []) -> map (@length A) (abs s) = map (@length bool) m ->
+  get_c s (Mask m) = Flat (mask_rows (abs s) m).
+Proof. exact @get_mask_same_structure. Qed.
+Print Assumptions c05_mask_same_structure.
+
+(* lengths, starts, shape, size, len, iteration, flatten *)
+Theorem c05_attr_lengths : forall A (s : conc A), wf s -> attr_lengths s = map (@length A) (abs s).
+Proof. exact @attr_lengths_refines. Qed.
+Print Assumptions c05_attr_lengths.
+
+Theorem c05_attr_starts : forall A (s : conc A),
+  wf s -> length (attr_starts s) = length (abs s) /\
+  forall j, (j < length (abs s))%nat -> nth j (attr_starts s) 0%nat = length (concat (firstn j (abs s))).
+Proof. exact @attr_starts_refines. Qed.
+Print Assumptions c05_attr_starts.
+
+Theorem c05_attr_shape : forall A (s : conc A) l,
+  wf s -> (attr_shape2 s = Some l <-> (abs s <> [] /\ forall row, In row (abs s) -> length row = l)).
+Proof. exact @attr_shape_refines. Qed.
+Print Assumptions c05_attr_shape.
+
+Theorem c05_attr_size : forall A (s : conc A), wf s -> attr_size s = sum_nat (map (@length A) (abs s)).
+Proof. exact @attr_size_refines. Qed.
+Print Assumptions c05_attr_size.
+
+Theorem c05_attr_len : forall A (s : conc A), attr_len s = length (abs s) /\ attr_len s = length (lens s).
+Proof. exact @attr_len_refines. Qed.
+Print Assumptions c05_attr_len.
+
+Theorem c05_attr_iter : forall A (s : conc A), attr_iter s = abs s.
+Proof. exact @attr_iter_refines. Qed.
+Print Assumptions c05_attr_iter.
+
+Theorem c05_attr_flatten : forall A (s : conc A), wf s -> attr_flatten s = concat (abs s).
+Proof. exact @attr_flatten_refines. Qed.
+Print Assumptions c05_attr_flatten.
+
+(* constructors: from nested lists the rows are the given rows; flat data + lengths is accepted exactly when
+   the lengths add up, and then both constructions give the same array *)
+Theorem c05_ctor_nested : forall A (rows : list (list A)), abs (ctor_nested rows) = rows /\ wf (ctor_nested rows).
+Proof. intros A rows. split; [exact (ctor_nested_abs rows)|exact (ctor_nested_wf rows)]. Qed.
+Print Assumptions c05_ctor_nested.
+
+Theorem c05_ctor_paths_agree : forall A (rows : list (list A)),
+  ctor_flat (concat rows) (map (@length A) rows) = Some (ctor_nested rows).
+Proof. exact @ctor_paths_agree. Qed.
+Print Assumptions c05_ctor_paths_agree.
+
+Theorem c05_ctor_flat_checks_lengths : forall A (d : list A) ls,
+  (forall s, ctor_flat d ls = Some s -> wf s /\ data s = d /\ lens s = ls) /\
+  (sum_nat ls <> length d -> ctor_flat d ls = None).
+Proof. intros A d ls. split; [exact (ctor_flat_wf d ls)|exact (ctor_flat_rejects d ls)]. Qed.
+Print Assumptions c05_ctor_flat_checks_lengths.
+
+(* Non-vacuity: a concrete array ([[0,1,2],[3,4],[5,6,7,8]], the D3 witness) meets wf, and the reads that were
+   wrong before the repair come out as list-of-rows semantics says. *)
 Example c05_example :
-  get_c (mkRA [0; 1; 2; 3; 4; 5; 6; 7; 8]%Z [3; 2; 4]%nat) (Elem (-1) (-4)) = Flat [5%Z].
-Proof. vm_compute. reflexivity. Qed.
+  let s := mkRA [0; 1; 2; 3; 4; 5; 6; 7; 8]%Z [3; 2; 4]%nat in
+  wf s
+  /\ get_c s (Sl2SS (None, None, None) (Some (-2)%Z, None, None)) = Val [[1; 2]; [3; 4]; [7; 8]]%Z
+  /\ get_c s (Sl2SS (None, None, Some (-1)%Z) (Some 1%Z, None, Some (-1)%Z)) = Val [[6; 5]; [4; 3]; [1; 0]]%Z
+  /\ get_c s (Sl2SS (None, None, None) (Some 2%Z, None, None)) = Val [[2]; []; [7; 8]]%Z
+  /\ get_c s (Elem (-1) (-4)) = Flat [5%Z]
+  /\ get_c s (Elem 1 2) = Err
+  /\ get_c s (Mask [[true; false; true]; [false; false]; [false; true; false; true]]) = Flat [0; 2; 6; 8]%Z.
+Proof. vm_compute. repeat split; reflexivity. Qed.
 Print Assumptions c05_example.
